@@ -128,7 +128,7 @@ func (r *InterpResult) PathOf(p *Prog, n *Node, s Store) []string {
 	return out
 }
 
-const stateCap = 256
+const stateCap = 1024
 
 func Interp(g *Graph, d Domain, init Store) *InterpResult {
 	res := &InterpResult{In: map[*Node][]Store{}, pred: map[string]predItem{}}
@@ -552,6 +552,12 @@ func (d *pathDomain) Refine(e *Edge, s Store) (Store, bool) {
 		}
 		return s.With(k, "NN"), true
 	case "bool":
+		if id, isID := ast.Unparen(at.X).(*ast.Ident); isID && (id.Name == "true" || id.Name == "false") {
+			if _, isConst := info.Uses[id].(*types.Const); isConst {
+				// a literal condition (a constant argument substituted by the inliner)
+				return s, (id.Name == "true") == at.True
+			}
+		}
 		v, ok := identObj(info, at.X).(*types.Var)
 		if !ok || v.IsField() {
 			return s, true
@@ -741,24 +747,30 @@ func (p *Prog) Deref(f *Func, e ast.Expr) ast.Expr {
 func (p *Prog) EdgeAtom(f *Func, e *Edge) (condAtom, bool) {
 	info := f.Pkg.TypesInfo
 	at, ok := edgeAtom(info, e)
-	if !ok || at.Kind != "bool" {
-		return at, ok
-	}
-	v, isV := identObj(info, at.X).(*types.Var)
-	if !isV {
-		return at, ok
-	}
-	d := p.singleDef(f, v)
-	if d == nil {
-		return at, ok
-	}
-	branch := +1
-	if !at.True {
-		branch = -1
-	}
-	fake := &Edge{Cond: d, Branch: branch}
-	if a2, ok2 := edgeAtom(info, fake); ok2 {
-		return a2, true
+	// a flag bound once to a condition (possibly through further single
+	// bindings, as left by an inlined helper's parameter) stands for it
+	for depth := 0; depth < 4; depth++ {
+		if !ok || at.Kind != "bool" {
+			return at, ok
+		}
+		v, isV := identObj(info, at.X).(*types.Var)
+		if !isV {
+			return at, ok
+		}
+		d := p.singleDef(f, v)
+		if d == nil {
+			return at, ok
+		}
+		branch := +1
+		if !at.True {
+			branch = -1
+		}
+		fake := &Edge{Cond: d, Branch: branch}
+		a2, ok2 := edgeAtom(info, fake)
+		if !ok2 {
+			return at, ok
+		}
+		at = a2
 	}
 	return at, ok
 }
